@@ -210,6 +210,9 @@ func streamListing(cfg *Config, res *Result) error {
 		positive := false
 		for j := 0; j < nc; j++ {
 			cnt := r.Intn(len(c.Entries)+4) - 1
+			if r.Chance(1, 12) {
+				cnt = []int{1 << 20, 1 << 40, int(^uint(0) >> 1)}[r.Intn(3)] // "any count": os.File accepts math.MaxInt
+			}
 			if cnt > 0 {
 				positive = true
 			}
